@@ -208,7 +208,10 @@ func (r Rule) Apply(facts *FactSet, newFacts *FactSet, syms *SymbolTable) error 
 		}
 	}
 
-	combinations := combine(variables, r.Body, r.Expressions, facts, syms)
+	// closing stop releases the producer goroutine if we return before it is done
+	stop := make(chan struct{})
+	defer close(stop)
+	combinations := combine(variables, r.Body, r.Expressions, facts, syms, stop)
 
 	for res := range combinations {
 		simYield("apply.recv")
@@ -491,7 +494,7 @@ func (m MatchedVariables) Clone() MatchedVariables {
 	return res
 }
 
-func combine(variables MatchedVariables, predicates []Predicate, expressions []Expression, facts *FactSet, syms *SymbolTable) <-chan struct {
+func combine(variables MatchedVariables, predicates []Predicate, expressions []Expression, facts *FactSet, syms *SymbolTable, stop <-chan struct{}) <-chan struct {
 	MatchedVariables
 	error
 } {
@@ -576,10 +579,13 @@ func combine(variables MatchedVariables, predicates []Predicate, expressions []E
 						if err != nil {
 							fmt.Printf("expression error: %+v", err)
 							simYield("combine.send")
-							c <- struct {
+							select {
+							case c <- struct {
 								MatchedVariables
 								error
-							}{complete_vars, err}
+							}{complete_vars, err}:
+							case <-stop:
+							}
 
 							return
 						}
@@ -592,10 +598,14 @@ func combine(variables MatchedVariables, predicates []Predicate, expressions []E
 					if valid {
 						//fmt.Printf("sending valid variables %+v\n", complete_vars)
 						simYield("combine.send")
-						c <- struct {
+						select {
+						case c <- struct {
 							MatchedVariables
 							error
-						}{complete_vars, nil}
+						}{complete_vars, nil}:
+						case <-stop:
+							return
+						}
 					}
 				} else {
 					// if all predicates match but variables are not complete, it means
